@@ -321,7 +321,9 @@ Definition find_synsets (d : db) (id : option str) (forms : list str) (pos ili :
                        then [((se_entry_rowid _s, se_entry_rank _s), synset_columns d ss)] else []
           | None => []
           end)
-          (filter (fun _s => Z.eqb (se_entry_rowid _s) (fm_entry_rowid f)) (t_senses d)))
+          (filter (fun _s => Z.eqb (se_entry_rowid _s) (fm_entry_rowid f)
+                             (* only senses of the selected lexicons link a form to a synset (fix of F22) *)
+                             && (if nonempty lexicon_rowids then z_in (se_lexicon_rowid _s) lexicon_rowids else true)) (t_senses d)))
         (matching_forms d forms normalized search_all_forms) in
     map snd (stable_sort (fun a b => rank_key_le (fst a) (fst b))
                          (dedup (fun a b => q_synset_eqb (snd a) (snd b)) visited))
